@@ -97,6 +97,7 @@ def execute(c):
     c["hasp"] = hasp
     args = kernel_args(c)
     api = c.get("api", "kernel")
+    before = [a.copy() if isinstance(a, np.ndarray) else a for a in args]
     if api == "kernel":
         res = getattr(ops, name)(*args)
         if c["variant"] in ("gu", "pgu"):
@@ -107,6 +108,8 @@ def execute(c):
         sg = None
     else:
         out, lopt, sg = run_accessor(c, args)
+    # the caller's arrays must come back untouched (bitwise, NaN-aware)
+    c["inputs_modified"] = any(isinstance(a, np.ndarray) and not np.array_equal(a, b, equal_nan=True) for a, b in zip(args, before))
     c["out"] = [int(v) for v in np.asarray(out).reshape(-1).tolist()]
     c["lopt"] = "0" if lopt is None else fl(lopt) if np.isfinite(lopt) else "nan"
     c["sg"] = "" if sg is None else core.rat(sg)
@@ -190,7 +193,7 @@ def run_accessor(c, args):
 
 
 def tla_case(c):
-    keys = ("tid", "op", "variant", "swept", "fam", "level", "height", "line", "y", "nd", "lam", "grid", "lc", "hasp", "p", "robust", "out", "lopt", "pats", "hints", "hinted", "sg", "sgonly")
+    keys = ("tid", "op", "variant", "swept", "inmod", "fam", "level", "height", "line", "y", "nd", "lam", "grid", "lc", "hasp", "p", "robust", "out", "lopt", "pats", "hints", "hinted", "sg", "sgonly")
     d = {k: c[k] for k in keys if k in c}
     d.setdefault("lam", "0")
     d.setdefault("swept", [])
@@ -201,4 +204,5 @@ def tla_case(c):
     d.setdefault("hinted", False)
     d.setdefault("sg", "")
     d["sgonly"] = bool(c.get("sg_only"))
+    d["inmod"] = bool(c.get("inputs_modified"))
     return d
